@@ -33,6 +33,8 @@ import time
 import numpy as np
 
 from vf import core
+from vf import callforms
+from vf import errorpaths
 from vf import solverlib as sl
 
 PROPERTY = "C12"
@@ -303,6 +305,30 @@ def case_precision(case):
     return {"v": v, "nt": True, "n": 2, "obs": {"worst": float(worst), "Kz0": float(K[0])}}
 
 
+def case_repeat_extreme(case):
+    """requests outside the comfortable number range, three times in one process: whatever the library answers (finite
+    fields, inf, nan, an exception) it answers every time - compared byte for byte, exceptions by type"""
+    S = sl.solver()
+    z, prof = sl.build_profiles("most_aniso", 4)
+    q = np.random.default_rng(2).random((6, 8)) + 0.5
+    kw = dict(srf_flx=q * case["scale"], z=z, profiles=prof, domain=(80.0, 90.0), levels=case["levels"], modes=(8, 6), halo=13.0, precision=case["prec"], srf_bg_conc=case["bg"], footprint=False)
+    outs = []
+    for k in range(3):
+        try:
+            _, c, f = S(**dict(kw, srf_flx=kw["srf_flx"].copy()))
+            outs.append(("returned", str(np.asarray(c).dtype), np.asarray(c).tobytes(), np.asarray(f).tobytes()))
+        except Exception as e:  # noqa
+            outs.append(("raised", type(e).__name__, b"", b""))
+    v = []
+    for k in (1, 2):
+        if outs[k] != outs[0]:
+            what = "%s %s" % outs[k][:2] if outs[k][:2] != outs[0][:2] else "different bytes"
+            v.append({"sub": "repeat-extreme", "sig": "repeat-extreme/%s" % case["prec"], "msg": "source scaled by %g, background %g, %s precision, levels %r: call %d of three identical calls in one process differs from the first (%s %s, then %s)"
+                      % (case["scale"], case["bg"], case["prec"], case["levels"], k + 1, outs[0][0], outs[0][1], what)})
+            break
+    return {"v": v, "nt": True, "n": 3, "obs": {"first": "%s %s" % outs[0][:2]}}
+
+
 def case_reference(case):
     """every solve of the alphabet, alone, in a fresh one-thread process; written to case['path']"""
     out = {}
@@ -331,6 +357,7 @@ def case_history(case):
 
     hist = case["history"]
     _TOWER_TABLE.clear()
+    env_note = errorpaths.prepare(case["env"]) if case.get("env") else None
     if case.get("wisdom"):
         # the wisdom file a previous run would have left in the working directory: the repository's own copy if it
         # is there (it is git-ignored, so a bare checkout does not have it), else one exported by the reference stage
@@ -345,6 +372,8 @@ def case_history(case):
     v = []
     runs = []  # (name, threads, conc bytes, flx bytes, arrays, digest at return)
     sig_hist = "%s" % ("".join(o if len(o) == 1 else "(%s)" % o for o in hist))
+    if case.get("env"):
+        sig_hist = "[%s: %s] %s" % (case["env"], env_note, sig_hist)
     for pos, op in enumerate(hist):
         if op[0] == "T" and op[1:].isdigit():
             config.NUM_THREADS = int(op[1:])
@@ -358,7 +387,12 @@ def case_history(case):
         else:
             name = op
             if name not in refs:
-                d = np.load(os.path.join(refdir, name + ".npz"))
+                rp = os.path.join(refdir, name + ".npz")
+                if not os.path.exists(rp):
+                    # the reference stage could not produce this solve (the library raised there; reported by that stage)
+                    v.append({"sub": "vs-fresh", "sig": "reference-failed/%s" % name.split("~")[-1], "msg": "solve %s raised when run alone in a fresh process (history %s)" % (name, sig_hist)})
+                    continue
+                d = np.load(rp)
                 refs[name] = {k: d[k] for k in d.files}
             kw, (c, f, g), unmodified = _run_solve(name)
             nthreads = config.NUM_THREADS
@@ -409,6 +443,7 @@ def run(ctx):
     depth = 3 if ctx.tier == "quick" else 4
     refdir = os.path.join(ctx.tmp_root, "refs")
     os.makedirs(refdir)
+    callforms.run_solver_forms(ctx)
     core.run_forked(ctx, case_reference, [{"solve": s, "path": os.path.join(refdir, s + ".npz")} for s in SOLVES], sub="reference")
     seen = {}
     transitions = 0
@@ -453,6 +488,13 @@ def run(ctx):
     transitions += 2 * len(pairs)
     for c, r in zip(pairs, pr):
         seen.setdefault(r["state"], (c, r["state_detail"]))
+    # error paths: every solve of the alphabet twice, in a pristine child, after a refused call / next to an unreadable wisdom file
+    envh = [{"history": [s_, s_], "wisdom": False, "refdir": refdir, "env": e_} for e_ in errorpaths.ENVS for s_ in ("A", "B", "C", "D", "E")]
+    core.run_forked(ctx, case_history, envh, sub="after a refused call / with an unreadable wisdom file")
+    hist_count += len(envh)
+    ctx.run_cases(errorpaths.case_blocked_pyfftw, [{"blocked": "pyfftw"}], sub="pyfftw cannot be imported: refuse or be right", chunksize=1)
+    core.run_forked(ctx, case_repeat_extreme, [{"scale": sc_, "bg": bg_, "prec": pr_, "levels": lv_} for sc_, bg_, pr_, lv_ in itertools.product((1e41, 1e300, 1e-320, 0.0), (0.0, 1e38), ("single", "double"), (4, [2, 4]))],
+                    sub="extreme magnitudes repeated in one process")
     ctx.run_cases(case_precision, [{"z0": z0, "footprint": fp, "levels": lv} for z0, fp, lv in itertools.product(SMOOTH_Z0, (False, True), (6, [2, 6, 9]))], sub="single vs double over surface regimes")
     nodedup = None
     if ctx.tier != "quick":
